@@ -18,6 +18,9 @@ CONFIGS = [
     # task completion as a condition
     ('done', dict(B, NRoots=1, MaxActs=3, RootOps=5, TaskOps=2, NFlags=1,
                   Menu={'instant', 'sleep', 'open', 'do', 'cancel', 'await_t', 'leave'}), INV),
+    # resource-level comparisons: several waiters of different thresholds on one level that rises and falls
+    ('levels', dict(B, NRoots=3, MaxActs=3, RootOps=3, NFlags=1, NRes=1, MaxPools=2, ResInit=1, Horizon=1,
+                    Menu={'instant', 'await_lvl', 'rchange'}), INV),
     # nested connectives: the model follows the code (known finding), so NoMissedWake is not claimed here
     ('nested', dict(B, NRoots=2, MaxActs=2, RootOps=3, NFlags=2, CondSel='nested',
                     Menu={'instant', 'sleep', 'fset', 'await_conn'}), ('NoFault', 'RunLive')),
